@@ -83,6 +83,84 @@ fn scalar_cands(ls: &[Leaf], rng: &mut Rng) -> Vec<Vec<BigInt>> {
         .collect()
 }
 
+/// Values suggested by the immediates of the program's CASM (bounds, shifts, limits): v, -v,
+/// 2^128 - v, v - 2^128 and their neighbours. Inputs at these values are where an off-by-one in a
+/// libfunc's range check shows.
+fn mined_values(c: &Compiled) -> Vec<BigInt> {
+    use cairo_lang_casm::instructions::InstructionBody;
+    use cairo_lang_casm::operand::{DerefOrImmediate, ResOperand};
+    let p = prime();
+    let two128: BigInt = BigInt::one() << 128u32;
+    let mut base: Vec<BigInt> = vec![];
+    for i in &c.builder.casm_program().instructions {
+        if let InstructionBody::AssertEq(a) = &i.body {
+            let v = match &a.b {
+                ResOperand::Immediate(v) => Some(v.value.clone()),
+                ResOperand::BinOp(b) => match &b.b {
+                    DerefOrImmediate::Immediate(v) => Some(v.value.clone()),
+                    _ => None,
+                },
+                _ => None,
+            };
+            if let Some(v) = v {
+                let v = canon(&v);
+                if !base.contains(&v) {
+                    base.push(v);
+                }
+            }
+        }
+        if base.len() >= 40 {
+            break;
+        }
+    }
+    let mut out: Vec<BigInt> = vec![];
+    for v in base {
+        for s in [v.clone(), &p - &v, &two128 - &v, &v - &two128, &two128 - (&p - &v)] {
+            for d in [-1i32, 0, 1] {
+                let x = &s + BigInt::from(d);
+                if !out.contains(&x) {
+                    out.push(x);
+                }
+            }
+        }
+    }
+    out
+}
+
+/// Extra input vectors: one leaf takes a mined value, the others a random candidate.
+fn mined_vectors(ls: &[Leaf], mined: &[BigInt], n: usize, rng: &mut Rng) -> Vec<Vec<ArgV>> {
+    let scalar_idx: Vec<usize> = ls.iter().enumerate().filter(|(_, l)| l.elem.is_none()).map(|(i, _)| i).collect();
+    if scalar_idx.is_empty() || n == 0 {
+        return vec![];
+    }
+    let mut options: Vec<(usize, BigInt)> = vec![];
+    for &j in &scalar_idx {
+        for v in mined {
+            // the integer or its residue may lie in the leaf's range
+            for cand in [v.clone(), v - prime()] {
+                if cand >= ls[j].lo && cand <= ls[j].hi && !(ls[j].nonzero && cand.is_zero()) {
+                    options.push((j, cand));
+                }
+            }
+        }
+    }
+    let mut out = vec![];
+    let mut seen = BTreeSet::new();
+    while out.len() < n && !options.is_empty() {
+        let (j, v) = options.swap_remove(rng.below(options.len() as u64) as usize);
+        let base = input_vectors(ls, 1, rng).pop().unwrap_or_default();
+        if base.len() != ls.len() {
+            break;
+        }
+        let mut vec = base;
+        vec[j] = ArgV::V(v);
+        if seen.insert(vec.clone()) {
+            out.push(vec);
+        }
+    }
+    out
+}
+
 fn input_vectors(ls: &[Leaf], n: usize, rng: &mut Rng) -> Vec<Vec<ArgV>> {
     if ls.is_empty() {
         return vec![vec![]];
@@ -203,6 +281,7 @@ fn cmd_record(plan_path: &str, outdir: &str) {
     let max_occ = plan["max_occ"].as_u64().unwrap_or(8) as usize;
     let max_steps = plan["max_steps"].as_u64().unwrap_or(200_000) as usize;
     let max_fns = plan["max_fns"].as_u64().unwrap_or(6) as usize;
+    let n_mined = plan["mined_inputs_per_fn"].as_u64().unwrap_or(0) as usize;
     let seed = seed_from_env();
     std::fs::create_dir_all(format!("{outdir}/sierra")).unwrap();
     let threads = rayon::current_num_threads().max(1);
@@ -244,6 +323,7 @@ fn cmd_record(plan_path: &str, outdir: &str) {
                 };
                 std::fs::write(format!("{outdir}/sierra/{}.sierra", h16(&id)), program.to_string()).unwrap();
                 let which = p["funcs"].as_str().unwrap_or("foo");
+                let mined = mined_values(&c);
                 let mut n_fn = 0;
                 for f in user_functions(&c, which) {
                     if n_fn >= max_fns {
@@ -256,7 +336,14 @@ fn cmd_record(plan_path: &str, outdir: &str) {
                     n_fn += 1;
                     let fname = f.id.to_string();
                     let mut rng = Rng::new(seed ^ u64::from_str_radix(&h16(&format!("{id}/{fname}"))[..15], 16).unwrap());
-                    for (k, args) in input_vectors(&ls, n_inputs, &mut rng).into_iter().enumerate() {
+                    let mut vectors = input_vectors(&ls, n_inputs, &mut rng);
+                    let extra = mined_vectors(&ls, &mined, n_mined, &mut rng);
+                    for v in extra {
+                        if !vectors.contains(&v) {
+                            vectors.push(v);
+                        }
+                    }
+                    for (k, args) in vectors.into_iter().enumerate() {
                         let gas = gas_for(&c, f);
                         let (obs, adv) =
                             run_with(&c, f, &args, gas, max_steps, Mode::Record { full_scan_limit: 60_000 });
